@@ -338,6 +338,9 @@ def run(ctx):
             ",".join(canon_sq(v) for v in r)
         reqs.append(req)
         impl.append(got)
+        # the index-wise published formula evaluated by the Lean side (theorem es_eq_formula)
+        reqs.append("esformula" + req[2:])
+        impl.append(got)
         meta.append(("es", x, y, ts1, ts2, tm, lag))
         ctx.case(req, nx >= 3 and ny >= 3,
                  {"call": "event_synchronization", "x": x, "y": y, "ts1": ts1, "ts2": ts2,
@@ -394,6 +397,9 @@ def run(ctx):
         got = "raise" if isinstance(r, Exception) else ",".join(canon_rate(v) for v in r)
         reqs.append(req)
         impl.append(got)
+        # time-wise formula (theorem eca_eq_formula)
+        reqs.append("ecaformula" + req[3:])
+        impl.append(got)
         meta.append(("eca", x, y, ts1, ts2, tm, lag))
         ctx.case(req, not empty,
                  {"call": "event_coincidence_analysis", "x": x, "y": y, "ts1": ts1, "ts2": ts2,
@@ -436,6 +442,8 @@ def run(ctx):
         got = "raise" if isinstance(r, Exception) else ",".join(canon_rate(v) for v in r)
         reqs.append(req)
         impl.append(got)
+        reqs.append("ecarateformula" + req[7:])
+        impl.append(got)
         meta.append(("ecarate", w, x, y, ts1, ts2, tm, lag))
         ctx.case(req, True)
         ctx.count(f"window:{w}")
@@ -457,8 +465,9 @@ def run(ctx):
             if g2 != got:
                 ctx.fail({"kind": "exchange", "method": "_eca_coincidence_rate", "window_type": w},
                          f"rate({w})(x,y) = {got} but (y,x) reversed = {g2}", rep)
-    ctx.correspond("Lean Events model == event_synchronization / event_coincidence_analysis / "
-                   "_eca_coincidence_rate", reqs, impl)
+    ctx.correspond("Lean Events model (es/eca/ecaRate) and Lean published formulas "
+                   "(esSpec/ecaFormula/ecaRateFormula) == event_synchronization / "
+                   "event_coincidence_analysis / _eca_coincidence_rate", reqs, impl)
     ctx.extra["pair_calls_compared"] = len(reqs)
 
     # ------------------------------------------------------------------
